@@ -155,6 +155,7 @@ def bindsCls (modname other : Str) : Tree → List (Str × Item)
       ++ bindsCls modname other next
   | .comp r body next => (if r then bindsCls modname other body else []) ++ bindsCls modname other next
   | .imp name next => (name, externalItem other) :: bindsCls modname other next
+  | .alias _ _ next => bindsCls modname other next
   | .other next => bindsCls modname other next
 
 def bindsTop (modname other : Str) : Tree → List (Str × Val)
@@ -169,12 +170,38 @@ def bindsTop (modname other : Str) : Tree → List (Str × Val)
       ++ bindsTop modname other next
   | .comp r body next => (if r then bindsTop modname other body else []) ++ bindsTop modname other next
   | .imp name next => (name, .item (externalItem other)) :: bindsTop modname other next
+  | .alias _ _ next => bindsTop modname other next
   | .other next => bindsTop modname other next
+
+/-- the module-level `target = src` assignments executed by an import, in order -/
+def aliasesOf : Tree → List (Str × Str)
+  | .done => []
+  | .func _ _ _ _ _ next => aliasesOf next
+  | .cls _ _ _ _ next => aliasesOf next
+  | .ifs _ r1 r2 body orelse next =>
+    (if r1 then aliasesOf body else []) ++ (if r2 then aliasesOf orelse else []) ++ aliasesOf next
+  | .comp r body next => (if r then aliasesOf body else []) ++ aliasesOf next
+  | .imp _ next => aliasesOf next
+  | .alias t s next => (t, s) :: aliasesOf next
+  | .other next => aliasesOf next
+
+def dictGet {β : Type} (k : Str) : List (Str × β) → Option β
+  | [] => none
+  | (k', v) :: r => if k' = k then some v else dictGet k r
+
+/-- `target = src` : the second key gets the object `src` is bound to. Simplification: the aliases are applied
+    after all definitions (an alias sees the FINAL binding of `src` and its key comes last), exact when names are
+    bound once; only the ORDER of the module dict can differ (the harness compares such modules as sets). -/
+def applyAliases {β : Type} (al : List (Str × Str)) (d : List (Str × β)) : List (Str × β) :=
+  al.foldl (fun acc ts => match dictGet ts.2 acc with
+    | some v => dictSet ts.1 v acc
+    | none => acc) d
 
 /-- the module object after `import` : name `modname`; `other` names the module(s) imported names
     come from -/
 def execModule (modname other : Str) (m : Module) : ObjGraph :=
-  { name := modname, doc := m.doc.map (·.text), dict := setAll (bindsTop modname other m.body) [] }
+  { name := modname, doc := m.doc.map (·.text),
+    dict := applyAliases (aliasesOf m.body) (setAll (bindsTop modname other m.body) []) }
 
 /-! ## the fragment of C16 -/
 
@@ -186,6 +213,7 @@ def noDefs : Tree → Bool
   | .ifs _ _ _ body orelse next => noDefs body && noDefs orelse && noDefs next
   | .comp _ body next => noDefs body && noDefs next
   | .imp .. => false
+  | .alias .. => false
   | .other next => noDefs next
 
 def isWrapperName (d : Deco) : Bool :=
@@ -211,6 +239,8 @@ def inFragment : Bool → Tree → Bool
           (if r2 then inFragment inCls orelse else noDefs orelse)) && inFragment inCls next
   | inCls, .comp r body next => (if r then inFragment inCls body else noDefs body) && inFragment inCls next
   | inCls, .imp _ next => inFragment inCls next
+  -- a second NAME for a def/class: the dynamic walk reports it under both keys, the static one only under the def's
+  | _, .alias _ _ _ => false
   | inCls, .other next => inFragment inCls next
 
 /-- distinct names per class scope (module-level classes reached through executed branches) -/
@@ -225,6 +255,7 @@ def classScopesDistinct (modname other : Str) : Tree → Bool
   | .comp r body next =>
     (if r then classScopesDistinct modname other body else true) && classScopesDistinct modname other next
   | .imp _ next => classScopesDistinct modname other next
+  | .alias _ _ next => classScopesDistinct modname other next
   | .other next => classScopesDistinct modname other next
 
 /-- all side conditions of C16 `static_eq_dynamic` as one decidable test (see `C16.InFragment`) -/
@@ -242,6 +273,7 @@ def propsOf : Tree → List Str
   | .ifs _ _ _ body orelse next => propsOf body ++ propsOf orelse ++ propsOf next
   | .comp _ body next => propsOf body ++ propsOf next
   | .imp _ next => propsOf next
+  | .alias _ _ next => propsOf next
   | .other next => propsOf next
 
 end Xdoc.Dynamic
